@@ -93,6 +93,16 @@ func runSolver(ctx context.Context, sp solverSpec, file string, secs int) solveO
 
 // discharge races the portfolio on one obligation.
 func discharge(o *Obligation, decls []string, dir string, secs int) {
+	if o.syntactic {
+		o.Backend = "syntactic"
+		if o.Goal.S == "true" {
+			o.Result = "discharged"
+		} else {
+			o.Result = "failed"
+			o.Output = o.Text
+		}
+		return
+	}
 	script := o.buildScript(decls)
 	o.script = script
 	if len(script) > maxScriptBytes {
